@@ -1,5 +1,5 @@
 (* C02 — value-level laws of getpath / setpath / delpaths (Path.v). *)
-From Coq Require Import List ZArith NArith Bool Lia.
+From Coq Require Import List ZArith NArith Bool Lia Sorted.
 From Verif Require Import c02.Path.
 Import ListNotations.
 Open Scope Z_scope.
@@ -255,4 +255,358 @@ Proof.
       * apply (Harr []); auto.
       * contradiction.
       * apply (Harr l); auto.
+Qed.
+
+(* ==== L2: writes through diverging paths commute ==== *)
+Definition bind {A B} (o : option A) (f : A -> option B) : option B :=
+  match o with Some x => f x | None => None end.
+
+Open Scope nat_scope.
+Lemma nth_set_nth : forall l i u k, nth k (set_nth l i u) JNull = if Nat.eqb k i then u else nth k l JNull.
+Proof.
+  intros. unfold set_nth. destruct (Nat.eqb k i) eqn:E.
+  - apply Nat.eqb_eq in E. subst. apply set_nth_nth.
+  - apply Nat.eqb_neq in E.
+    destruct (Nat.lt_ge_cases k i) as [Hk|Hk].
+    + destruct (Nat.lt_ge_cases k (length l)) as [Hl|Hl].
+      * rewrite app_nth1 by (rewrite firstn_length; lia).
+        rewrite <- (firstn_skipn i l) at 2. rewrite app_nth1 by (rewrite firstn_length; lia). auto.
+      * rewrite firstn_all2 by lia. rewrite app_nth2 by lia. rewrite app_nth1 by (rewrite repeat_length; lia).
+        rewrite (nth_overflow l) by lia. apply nth_repeat.
+    + assert (i < k) by lia.
+      rewrite app_nth2 by (rewrite firstn_length; lia). rewrite firstn_length.
+      rewrite app_nth2 by (rewrite repeat_length; lia). rewrite repeat_length.
+      destruct (Nat.lt_ge_cases i (length l)) as [Hl|Hl].
+      * replace (Nat.min i (length l)) with i by lia. replace (i - length l)%nat with 0%nat by lia.
+        replace (k - i - 0)%nat with (S (k - S i)) by lia. cbn [nth].
+        rewrite <- (firstn_skipn (S i) l) at 2. rewrite app_nth2 by (rewrite firstn_length; lia).
+        rewrite firstn_length. replace (Nat.min (S i) (length l)) with (S i) by lia. auto.
+      * replace (Nat.min i (length l)) with (length l) by lia.
+        replace (k - length l - (i - length l))%nat with (S (k - S i)) by lia. cbn [nth].
+        rewrite skipn_all2 by lia. rewrite (nth_overflow l) by lia. destruct (k - S i)%nat; auto.
+Qed.
+
+Lemma set_nth_comm : forall l i j u w, i <> j -> set_nth (set_nth l i u) j w = set_nth (set_nth l j w) i u.
+Proof.
+  intros. apply nth_ext with (d := JNull) (d' := JNull).
+  - rewrite !set_nth_length. lia.
+  - intros k _. rewrite !nth_set_nth.
+    destruct (Nat.eqb k j) eqn:E1, (Nat.eqb k i) eqn:E2; auto.
+    apply Nat.eqb_eq in E1, E2. lia.
+Qed.
+
+Lemma set_nth_twice : forall l i u w, set_nth (set_nth l i u) i w = set_nth l i w.
+Proof.
+  intros. apply nth_ext with (d := JNull) (d' := JNull).
+  - rewrite !set_nth_length. lia.
+  - intros k _. rewrite !nth_set_nth. destruct (Nat.eqb k i); auto.
+Qed.
+
+Definition getk (k : key) (m : list (key * jv)) : jv := match lookup k m with Some t => t | None => JNull end.
+
+Lemma update_key_obj : forall m k p x, is_empty x = false ->
+  update (JObj m) (PK k :: p) x = match update (getk k m) p x with Some u => Some (JObj (insert k u m)) | None => None end.
+Proof. intros. simpl. unfold getk. destruct (lookup k m); auto. rewrite H. auto. Qed.
+
+Lemma update_key_null : forall k p x, is_empty x = false ->
+  update JNull (PK k :: p) x = match update (getk k []) p x with Some u => Some (JObj (insert k u [])) | None => None end.
+Proof. intros. simpl. rewrite H. auto. Qed.
+
+Lemma getk_insert_same : forall k u m, getk k (insert k u m) = u.
+Proof. intros. unfold getk. rewrite lookup_insert_same. auto. Qed.
+Lemma getk_insert_other : forall k k' u m, key_eqb k' k = false -> getk k' (insert k u m) = getk k' m.
+Proof. intros. unfold getk. rewrite lookup_insert_other; auto. Qed.
+
+Lemma getk_clean : forall m k, clean (JObj m) -> clean (getk k m).
+Proof. intros. unfold getk. destruct (lookup k m) eqn:L; simpl; auto. eapply lookup_clean; eauto. Qed.
+
+(* index writes with a non-negative index *)
+Definition guard_idx (l : list jv) (i : Z) : bool := (zlen l <=? i)%Z && (max_index <=? i)%Z.
+
+Lemma update_idx_arr : forall l i p x, (0 <= i)%Z -> is_empty x = false ->
+  update (JArr l) (PI i :: p) x =
+  if guard_idx l i then None
+  else match update (nth (Z.to_nat i) l JNull) p x with Some u => Some (JArr (set_nth l (Z.to_nat i) u)) | None => None end.
+Proof.
+  intros l i p x Hi He. simpl. rewrite He. unfold guard_idx.
+  assert (clamp i (-1) (zlen l) = if (i <? zlen l)%Z then i else zlen l)%Z.
+  { unfold clamp. destruct (i <? 0)%Z eqn:E; try lia. destruct (i <? -1)%Z eqn:E1; try lia; auto. }
+  rewrite H. unfold zlen in *. destruct (i <? Z.of_nat (length l))%Z eqn:E.
+  - replace (i <? 0)%Z with false by lia. rewrite E. replace (Z.of_nat (length l) <=? i)%Z with false by lia. auto.
+  - replace (Z.of_nat (length l) <? 0)%Z with false by lia.
+    replace (Z.of_nat (length l) <? Z.of_nat (length l))%Z with false by lia.
+    replace (Z.of_nat (length l) <=? i)%Z with true by lia. simpl.
+    destruct (max_index <=? i)%Z; auto. rewrite (nth_overflow l) by lia. auto.
+Qed.
+
+Lemma update_idx_null : forall i p x, (0 <= i)%Z -> is_empty x = false ->
+  update JNull (PI i :: p) x =
+  if guard_idx [] i then None
+  else match update (nth (Z.to_nat i) [] JNull) p x with Some u => Some (JArr (set_nth [] (Z.to_nat i) u)) | None => None end.
+Proof.
+  intros i p x Hi He. rewrite <- (update_idx_arr [] i p x Hi He). simpl. rewrite He.
+  destruct (clamp i (-1) (zlen []) <? 0)%Z; auto.
+Qed.
+
+Theorem set_commute : forall p q v x y,
+  simple_path p -> simple_path q -> diverge p q -> x <> JEmpty -> y <> JEmpty -> clean v ->
+  bind (update v p x) (fun v1 => update v1 q y) = bind (update v q y) (fun v2 => update v2 p x).
+Proof.
+  induction p as [|c p IH]; intros q v x y Hp Hq Hd Hx Hy Hc. { destruct q; contradiction. }
+  assert (Ex : is_empty x = false) by (destruct x; auto; congruence).
+  assert (Ey : is_empty y = false) by (destruct y; auto; congruence).
+  destruct q as [|d q]. { destruct c; contradiction. }
+  inversion Hp; subst. inversion Hq; subst.
+  destruct c as [a| i | |], d as [b| j | |]; simpl in Hd; try contradiction.
+  - (* keys *)
+    assert (Hobj : forall m, clean (JObj m) ->
+      bind (match update (getk a m) p x with Some u => Some (JObj (insert a u m)) | None => None end)
+           (fun v1 => update v1 (PK b :: q) y) =
+      bind (match update (getk b m) q y with Some u => Some (JObj (insert b u m)) | None => None end)
+           (fun v2 => update v2 (PK a :: p) x)).
+    { intros m Hm. destruct (key_eqb a b) eqn:E.
+      - apply key_eqb_eq in E. subst b.
+        specialize (IH q (getk a m) x y H2 H4 Hd Hx Hy (getk_clean _ _ Hm)).
+        destruct (update (getk a m) p x) as [u1|] eqn:U1; destruct (update (getk a m) q y) as [u2|] eqn:U2; cbn [bind] in *.
+        + rewrite !update_key_obj by auto. rewrite !getk_insert_same. rewrite IH.
+          destruct (update u2 p x); auto. rewrite !insert_insert_same. auto.
+        + rewrite update_key_obj by auto. rewrite getk_insert_same. rewrite IH. auto.
+        + rewrite update_key_obj by auto. rewrite getk_insert_same. rewrite <- IH. auto.
+        + auto.
+      - destruct (update (getk a m) p x) as [u1|] eqn:U1; destruct (update (getk b m) q y) as [u2|] eqn:U2; cbn [bind].
+        + rewrite !update_key_obj by auto. rewrite getk_insert_other by (rewrite key_eqb_sym; auto).
+          rewrite getk_insert_other by auto. rewrite U1, U2. rewrite (insert_comm _ a b) by auto. auto.
+        + rewrite update_key_obj by auto. rewrite getk_insert_other by (rewrite key_eqb_sym; auto). rewrite U2. auto.
+        + rewrite update_key_obj by auto. rewrite getk_insert_other by auto. rewrite U1. auto.
+        + auto. }
+    destruct v; try reflexivity.
+    + rewrite !update_key_null by auto. apply (Hobj []). simpl. auto.
+    + rewrite !update_key_obj by auto. apply Hobj. auto.
+  - (* indices *)
+    simpl in H1, H3.
+    assert (Harr : forall l, clean (JArr l) ->
+      bind (if guard_idx l i then None
+            else match update (nth (Z.to_nat i) l JNull) p x with Some u => Some (JArr (set_nth l (Z.to_nat i) u)) | None => None end)
+           (fun v1 => update v1 (PI j :: q) y) =
+      bind (if guard_idx l j then None
+            else match update (nth (Z.to_nat j) l JNull) q y with Some u => Some (JArr (set_nth l (Z.to_nat j) u)) | None => None end)
+           (fun v2 => update v2 (PI i :: p) x)).
+    { intros l Hl. destruct (i =? j)%Z eqn:E.
+      - apply Z.eqb_eq in E. subst j.
+        specialize (IH q (nth (Z.to_nat i) l JNull) x y H2 H4 Hd Hx Hy (nth_clean _ _ Hl)).
+        destruct (guard_idx l i) eqn:G; auto.
+        destruct (update (nth (Z.to_nat i) l JNull) p x) as [u1|] eqn:U1;
+          destruct (update (nth (Z.to_nat i) l JNull) q y) as [u2|] eqn:U2; cbn [bind] in *; auto;
+          rewrite ?update_idx_arr by auto;
+          assert (Gf : forall u, guard_idx (set_nth l (Z.to_nat i) u) i = false)
+            by (intros; unfold guard_idx, zlen; rewrite set_nth_length;
+                replace (Z.of_nat (Nat.max (length l) (S (Z.to_nat i))) <=? i)%Z with false; [reflexivity|];
+                symmetry; apply Z.leb_gt; lia);
+          rewrite ?Gf, ?nth_set_nth, ?Nat.eqb_refl.
+        + rewrite IH. destruct (update u2 p x); auto. rewrite !set_nth_twice. auto.
+        + rewrite IH. auto.
+        + rewrite <- IH. auto.
+      - apply Z.eqb_neq in E.
+        assert (Hne : Z.to_nat i <> Z.to_nat j) by lia.
+        assert (Hnth : forall u, nth (Z.to_nat j) (set_nth l (Z.to_nat i) u) JNull = nth (Z.to_nat j) l JNull).
+        { intros. rewrite nth_set_nth. replace (Nat.eqb (Z.to_nat j) (Z.to_nat i)) with false; auto.
+          symmetry. apply Nat.eqb_neq. lia. }
+        assert (Hnth' : forall u, nth (Z.to_nat i) (set_nth l (Z.to_nat j) u) JNull = nth (Z.to_nat i) l JNull).
+        { intros. rewrite nth_set_nth. replace (Nat.eqb (Z.to_nat i) (Z.to_nat j)) with false; auto.
+          symmetry. apply Nat.eqb_neq. lia. }
+        assert (Hg : forall u w, guard_idx l i || guard_idx (set_nth l (Z.to_nat i) u) j =
+                                 guard_idx l j || guard_idx (set_nth l (Z.to_nat j) w) i).
+        { intros. unfold guard_idx, zlen. rewrite !set_nth_length.
+          destruct (Z.of_nat (length l) <=? i)%Z eqn:A1, (max_index <=? i)%Z eqn:A2,
+                   (Z.of_nat (length l) <=? j)%Z eqn:B1, (max_index <=? j)%Z eqn:B2; simpl;
+            repeat match goal with |- context [(?a <=? ?b)%Z] => destruct (a <=? b)%Z eqn:? end; simpl; auto;
+            exfalso;
+            repeat match goal with
+                   | H : (_ <=? _)%Z = true |- _ => apply Z.leb_le in H
+                   | H : (_ <=? _)%Z = false |- _ => apply Z.leb_gt in H
+                   end; lia. }
+        destruct (update (nth (Z.to_nat i) l JNull) p x) as [u1|] eqn:U1;
+          destruct (update (nth (Z.to_nat j) l JNull) q y) as [u2|] eqn:U2.
+        + specialize (Hg u1 u2).
+          destruct (guard_idx l i) eqn:G1, (guard_idx l j) eqn:G2; cbn [bind orb] in *;
+            rewrite ?update_idx_arr by auto; rewrite ?Hnth, ?Hnth', ?U1, ?U2;
+            try (rewrite <- Hg); try (rewrite Hg); auto.
+          destruct (guard_idx (set_nth l (Z.to_nat i) u1) j) eqn:G3; rewrite <- Hg; auto.
+          rewrite set_nth_comm by auto. auto.
+        + destruct (guard_idx l i) eqn:G1, (guard_idx l j) eqn:G2; cbn [bind]; auto;
+            rewrite ?update_idx_arr by auto; rewrite ?Hnth, ?U2;
+            destruct (guard_idx (set_nth l (Z.to_nat i) u1) j); auto.
+        + destruct (guard_idx l i) eqn:G1, (guard_idx l j) eqn:G2; cbn [bind]; auto;
+            rewrite ?update_idx_arr by auto; rewrite ?Hnth', ?U1;
+            destruct (guard_idx (set_nth l (Z.to_nat j) u2) i); auto.
+        + destruct (guard_idx l i), (guard_idx l j); auto. }
+    destruct v; try reflexivity.
+    + rewrite !update_idx_null by auto. apply (Harr []). simpl. auto.
+    + rewrite !update_idx_arr by auto. apply Harr. auto.
+Qed.
+
+(* ==== L3: delpaths marks against the ORIGINAL indices = single deletions in descending order ==== *)
+(* proved for the indices of one array (the level at which positions shift); nested paths: oracle _dref *)
+Section JvInd.
+  Variable P : jv -> Prop.
+  Hypothesis Hnull : P JNull.
+  Hypothesis Hbool : forall b, P (JBool b).
+  Hypothesis Hnum : forall z, P (JNum z).
+  Hypothesis Hstr : forall s, P (JStr s).
+  Hypothesis Hempty : P JEmpty.
+  Hypothesis Harr : forall l, Forall P l -> P (JArr l).
+  Hypothesis Hobj : forall m, Forall (fun kv => P (snd kv)) m -> P (JObj m).
+  Fixpoint jv_rect' (v : jv) : P v :=
+    match v with
+    | JNull => Hnull | JBool b => Hbool b | JNum z => Hnum z | JStr s => Hstr s | JEmpty => Hempty
+    | JArr l => Harr l ((fix go (l : list jv) : Forall P l :=
+                           match l with [] => Forall_nil _ | x :: r => Forall_cons _ (jv_rect' x) (go r) end) l)
+    | JObj m => Hobj m ((fix go (m : list (key * jv)) : Forall (fun kv => P (snd kv)) m :=
+                           match m with [] => Forall_nil _ | (k, x) :: r => Forall_cons (k, x) (jv_rect' x) (go r) end) m)
+    end.
+End JvInd.
+
+Definition sweepl : list jv -> list jv :=
+  fix go (l : list jv) : list jv :=
+    match l with
+    | [] => []
+    | x :: r => if is_empty x then go r else delete_empty x :: go r
+    end.
+
+Lemma delete_empty_arr : forall l, delete_empty (JArr l) = JArr (sweepl l).
+Proof. reflexivity. Qed.
+
+Lemma delete_empty_clean : forall v, clean v -> delete_empty v = v.
+Proof.
+  induction v using jv_rect'; intros Hc; auto.
+  - destruct Hc.
+  - rewrite delete_empty_arr. f_equal. apply clean_arr in Hc.
+    induction l; auto. inversion H; inversion Hc; subst. simpl.
+    rewrite (clean_not_empty a) by auto. rewrite H2 by auto. f_equal. auto.
+  - simpl. f_equal. apply clean_obj in Hc.
+    induction m as [|[k x] m]; auto. inversion H; inversion Hc; subst. simpl in *.
+    rewrite (clean_not_empty x) by auto. rewrite H2 by auto. f_equal. auto.
+Qed.
+
+Lemma sweepl_clean : forall l, Forall clean l -> sweepl l = l.
+Proof.
+  induction 1; auto. simpl. rewrite (clean_not_empty x) by auto. rewrite delete_empty_clean by auto. f_equal. auto.
+Qed.
+
+Lemma sweepl_app : forall l l', sweepl (l ++ l') = sweepl l ++ sweepl l'.
+Proof. induction l; simpl; intros; auto. destruct (is_empty a); rewrite IHl; auto. Qed.
+
+Fixpoint remove_nth {X} (i : nat) (l : list X) : list X :=
+  match l, i with
+  | [], _ => []
+  | _ :: r, O => r
+  | x :: r, S i' => x :: remove_nth i' r
+  end.
+
+Lemma remove_nth_split {X} : forall (l : list X) i, i < length l -> remove_nth i l = firstn i l ++ skipn (S i) l.
+Proof. induction l; destruct i; simpl; intros; try lia; auto. f_equal. apply IHl. lia. Qed.
+
+Lemma remove_nth_beyond {X} : forall (l : list X) i, length l <= i -> remove_nth i l = l.
+Proof. induction l; destruct i; simpl; intros; try lia; auto. f_equal. apply IHl. lia. Qed.
+
+Definition mark1 (i : nat) (l : list jv) : list jv :=
+  if Nat.ltb i (length l) then firstn i l ++ JEmpty :: skipn (S i) l else l.
+
+Definition idx (i : nat) : path := [PI (Z.of_nat i)].
+
+Lemma update_mark_idx : forall l i, update (JArr l) (idx i) JEmpty = Some (JArr (mark1 i l)).
+Proof.
+  intros. unfold idx, mark1. cbn [update is_empty].
+  assert (clamp (Z.of_nat i) (-1) (zlen l) = if (Z.of_nat i <? zlen l)%Z then Z.of_nat i else zlen l)%Z.
+  { unfold clamp. replace (Z.of_nat i <? 0)%Z with false by (symmetry; apply Z.ltb_ge; lia).
+    replace (Z.of_nat i <? -1)%Z with false by (symmetry; apply Z.ltb_ge; lia). reflexivity. }
+  rewrite H. unfold zlen in *. destruct (Nat.ltb i (length l)) eqn:L.
+  - apply Nat.ltb_lt in L. replace (Z.of_nat i <? Z.of_nat (length l))%Z with true by lia.
+    replace (Z.of_nat i <? 0)%Z with false by lia. rewrite Nat2Z.id. unfold set_nth.
+    replace (i - length l) with 0 by lia.
+    replace (Z.of_nat i <? Z.of_nat (length l))%Z with true by lia. auto.
+  - apply Nat.ltb_ge in L. replace (Z.of_nat i <? Z.of_nat (length l))%Z with false by lia.
+    replace (Z.of_nat (length l) <? 0)%Z with false by lia.
+    replace (Z.of_nat (length l) <? Z.of_nat (length l))%Z with false by lia. auto.
+Qed.
+
+Definition marks (is : list nat) (l : list jv) : list jv := fold_left (fun acc i => mark1 i acc) is l.
+
+Lemma mark_all_idx : forall is l, mark_all (JArr l) (map idx is) = Some (JArr (marks is l)).
+Proof. induction is; intros; [reflexivity|]. cbn [map mark_all]. rewrite update_mark_idx. apply IHis. Qed.
+
+Lemma mark1_length : forall i l, length (mark1 i l) = length l.
+Proof.
+  intros. unfold mark1. destruct (Nat.ltb i (length l)) eqn:L; auto. apply Nat.ltb_lt in L.
+  rewrite app_length, firstn_length. change (length (JEmpty :: skipn (S i) l)) with (S (length (skipn (S i) l))).
+  rewrite skipn_length. lia.
+Qed.
+
+Lemma mark1_app : forall i A C, i < length A -> mark1 i (A ++ C) = mark1 i A ++ C.
+Proof.
+  intros. unfold mark1. rewrite app_length.
+  replace (Nat.ltb i (length A + length C)) with true by (symmetry; apply Nat.ltb_lt; lia).
+  replace (Nat.ltb i (length A)) with true by (symmetry; apply Nat.ltb_lt; lia).
+  rewrite firstn_app, skipn_app. replace (i - length A) with 0 by lia. replace (S i - length A) with 0 by lia.
+  simpl. rewrite app_nil_r. rewrite <- app_assoc. auto.
+Qed.
+
+Lemma marks_app : forall is A C, (forall r, In r is -> r < length A) -> marks is (A ++ C) = marks is A ++ C.
+Proof.
+  induction is; intros; simpl; auto. rewrite mark1_app by (apply H; left; auto).
+  apply IHis. intros. rewrite mark1_length. apply H. right. auto.
+Qed.
+
+Lemma sweep_mark1 : forall i l, Forall clean l -> sweepl (mark1 i l) = remove_nth i l.
+Proof.
+  intros. unfold mark1. destruct (Nat.ltb i (length l)) eqn:L.
+  - apply Nat.ltb_lt in L. rewrite sweepl_app. simpl.
+    rewrite !sweepl_clean.
+    + symmetry. apply remove_nth_split. auto.
+    + rewrite <- (firstn_skipn (S i) l) in H. apply Forall_app in H. tauto.
+    + rewrite <- (firstn_skipn i l) in H. apply Forall_app in H. tauto.
+  - apply Nat.ltb_ge in L. rewrite sweepl_clean by auto. symmetry. apply remove_nth_beyond. auto.
+Qed.
+
+Lemma remove_nth_clean : forall i l, Forall clean l -> Forall clean (remove_nth i l).
+Proof. intros i l H. revert i. induction H; destruct i; simpl; auto. Qed.
+
+Lemma delpath_idx : forall l i, Forall clean l -> delpath (JArr l) (idx i) = Some (JArr (remove_nth i l)).
+Proof.
+  intros. unfold delpath, delpaths. cbn [mark_all]. rewrite update_mark_idx. cbn [option_map].
+  rewrite delete_empty_arr, sweep_mark1; auto.
+Qed.
+
+Definition descending (is : list nat) : Prop := StronglySorted (fun a b => b < a) is.
+
+Lemma sweep_marks_desc : forall is l, descending is -> Forall clean l ->
+  sweepl (marks is l) = fold_left (fun acc i => remove_nth i acc) is l.
+Proof.
+  induction is as [|i rest IH]; intros l Hd Hc; simpl.
+  - apply sweepl_clean. auto.
+  - inversion Hd; subst. rewrite <- (IH (remove_nth i l)); auto using remove_nth_clean.
+    unfold mark1 at 1. destruct (Nat.ltb i (length l)) eqn:L.
+    + apply Nat.ltb_lt in L.
+      assert (Hr : forall r, In r rest -> r < length (firstn i l)).
+      { intros r Hr. rewrite firstn_length. rewrite Forall_forall in H2. specialize (H2 r Hr). lia. }
+      rewrite remove_nth_split by auto.
+      rewrite (marks_app rest (firstn i l) (JEmpty :: skipn (S i) l)) by auto.
+      rewrite (marks_app rest (firstn i l) (skipn (S i) l)) by auto.
+      rewrite !sweepl_app. auto.
+    + apply Nat.ltb_ge in L. rewrite remove_nth_beyond by auto. auto.
+Qed.
+
+Theorem delpaths_descending : forall l is, Forall clean l -> descending is ->
+  delpaths (JArr l) (map idx is) =
+  fold_left (fun acc i => bind acc (fun v => delpath v (idx i))) is (Some (JArr l)).
+Proof.
+  intros l is Hc Hd.
+  assert (Hseq : forall is l, Forall clean l ->
+    fold_left (fun acc i => bind acc (fun v => delpath v (idx i))) is (Some (JArr l)) =
+    Some (JArr (fold_left (fun acc i => remove_nth i acc) is l))).
+  { induction is0; intros; simpl; auto. rewrite delpath_idx by auto. apply IHis0. apply remove_nth_clean. auto. }
+  rewrite Hseq by auto. rewrite <- sweep_marks_desc by auto.
+  destruct is as [|i rest]. { simpl. rewrite sweepl_clean; auto. }
+  unfold delpaths. change (map idx (i :: rest)) with (idx i :: map idx rest).
+  rewrite <- (map_cons idx). rewrite mark_all_idx. simpl. auto.
 Qed.
